@@ -641,8 +641,13 @@ pub fn run_matrix(cases_path: &str, out_path: &str) {
 				p.serialize_request_with_attributes(&key.kp, attrs).is_ok()
 			},
 			"crl_signed_by" => {
-				let t = hostile_time(&class);
 				let base = date_time_ymd(2024, 1, 1);
+				// classes that aim at one date of the revoked entry only
+				let (entry_shape, entry_t) = match class.split_once(':') {
+					Some((sh, tc)) => (sh, hostile_time(tc)),
+					None => ("", None),
+				};
+				let t = if entry_shape.is_empty() { hostile_time(&class) } else { None };
 				let p = CertificateRevocationListParams {
 					this_update: t.unwrap_or(base),
 					next_update: t.map(|x| x.checked_add(time::Duration::days(1)).unwrap_or(x)).unwrap_or(date_time_ymd(2024, 2, 1)),
@@ -662,9 +667,14 @@ pub fn run_matrix(cases_path: &str, out_path: &str) {
 							"serial-empty" => SerialNumber::from_slice(&[]),
 							_ => SerialNumber::from_slice(&[7]),
 						},
-						revocation_time: t.unwrap_or(base),
+						revocation_time: if entry_shape.starts_with("revtime") { entry_t.unwrap_or(base) } else { t.unwrap_or(base) },
 						reason_code: Some(RevocationReason::KeyCompromise),
-						invalidity_date: t,
+						invalidity_date: match entry_shape {
+							"revtime-with-valid-invalidity" => Some(date_time_ymd(2023, 12, 24)),
+							"revtime-without-invalidity" => None,
+							"invalidity-with-valid-revtime" => entry_t,
+							_ => t,
+						},
 					}],
 					key_identifier_method: KeyIdMethod::PreSpecified(vec![1]),
 				};
